@@ -42,7 +42,10 @@ Doc(p) == CASE p \in {"taut-num", "taut-str", "taut-ident"} -> [class |-> "TAUTO
 Also(p) == IF p = "union-null-system" THEN {[class |-> "UNION_BASED", sev |-> "HIGH"]} ELSE {}
 Docs(p) == {Doc(p)} \cup Also(p)
 ExprSteps == {"and-left", "and-right", "or-left", "or-right", "not", "paren", "case-when", "in-list", "between", "func-arg", "cast", "arith",
-              "case-first-when", "func-first-arg", "in-list-first"}   \* not the last element of a list
+              "case-first-when", "func-first-arg", "in-list-first",   \* not the last element of a list
+              \* operator chains are parsed by iteration and are as deep as they are long: the condition as the left-most (deepest)
+              \* leaf of a chain of 300 conjuncts, and as the conjunct that follows a parenthesised chain of 300 disjuncts
+              "long-chain-leftmost", "after-long-chain"}
 Placements == {"where", "having", "join-on", "update-where", "delete-where", "select-item", "order-by", "insert-value", "update-set", "group-by",
                \* the payload in an element that is not the last of its list
                "join-on-first", "join-on-middle", "select-first-item", "order-by-first", "insert-first-row", "update-first-set", "group-by-first"}
